@@ -68,6 +68,7 @@ Truthy(v) ==
     [] v.t = "str"     -> v.s # ""
     [] v.t = "bytes"   -> v.s # ""
     [] v.t = "byte"    -> TRUE
+    [] v.t = "range"   -> v.n > 0
     [] v.t = "seq"     -> v.once \/ Len(v.vs) > 0
     [] v.t = "dict"    -> Len(v.kvs) > 0
     [] v.t = "obj"     -> v.kind # "falsy"
@@ -108,6 +109,33 @@ Restored(n, backup) ==
   THEN glob[n] ELSE backup
 
 -----
+\* --- repeat variables: closed forms over (length, position), position 1-based,
+\* written independently of tal.RepeatItem.  Letters: positional base 26 over
+\* a..z (a..z, ba, bb, ...: the scheme inherited from Zope); Roman: subtractive
+\* notation, M repeated beyond 3999.
+RECURSIVE Digits26(_)
+Digits26(n) == IF n < 26 THEN <<n>> ELSE Append(Digits26(n \div 26), n % 26)
+RomanTable == << <<1000, "M">>, <<900, "CM">>, <<500, "D">>, <<400, "CD">>, <<100, "C">>, <<90, "XC">>,
+                 <<50, "L">>, <<40, "XL">>, <<10, "X">>, <<9, "IX">>, <<5, "V">>, <<4, "IV">>, <<1, "I">> >>
+RECURSIVE RomanSeq(_, _)
+RomanSeq(n, k) == IF n = 0 THEN <<>>
+                  ELSE IF n >= RomanTable[k][1] THEN <<RomanTable[k][2]>> \o RomanSeq(n - RomanTable[k][1], k)
+                  ELSE RomanSeq(n, k + 1)
+RepVal(f, len, pos) ==
+  LET idx == pos - 1 IN
+  CASE f = "index"  -> [t |-> "int", n |-> idx]
+    [] f = "number" -> [t |-> "int", n |-> idx + 1]
+    [] f = "length" -> [t |-> "int", n |-> len]
+    [] f = "start"  -> [t |-> "int", n |-> IF idx = 0 THEN 1 ELSE 0]
+    [] f = "end"    -> [t |-> "int", n |-> IF idx = len - 1 THEN 1 ELSE 0]
+    [] f = "even"   -> [t |-> "str", s |-> IF idx % 2 = 0 THEN "even" ELSE ""]
+    [] f = "odd"    -> [t |-> "str", s |-> IF idx % 2 = 1 THEN "odd" ELSE ""]
+    [] f = "parity" -> [t |-> "str", s |-> IF idx % 2 = 0 THEN "even" ELSE "odd"]
+    [] f = "letter" -> [t |-> "letters", up |-> FALSE, ds |-> Digits26(idx)]
+    [] f = "Letter" -> [t |-> "letters", up |-> TRUE, ds |-> Digits26(idx)]
+    [] f = "roman"  -> [t |-> "roman", up |-> FALSE, ss |-> RomanSeq(idx + 1, 1)]
+    [] f = "Roman"  -> [t |-> "roman", up |-> TRUE, ss |-> RomanSeq(idx + 1, 1)]
+
 \* attribute access falls back to item lookup (utils.lookup_attr): a KeyError of
 \* the item lookup re-raises the original AttributeError, other errors propagate
 HasKey(v, a) == \E n \in 1..Len(v.kvs) : v.kvs[n].k = a
@@ -136,8 +164,7 @@ EvAll(e, L) ==
     [] e.x = "pipe"  -> EvPipe(e.es, 1, L)
     [] e.x = "str"   -> EvStr(e.ps, 1, L)
     [] e.x = "rep"   -> { [r |-> IF rep[e.n] = NoRep THEN Exc("KeyError")
-                                 ELSE [t |-> "repvar", f |-> e.f, len |-> rep[e.n].len, pos |-> rep[e.n].pos],
-                           ev |-> <<>>] }
+                                 ELSE RepVal(e.f, rep[e.n].len, rep[e.n].pos), ev |-> <<>>] }
     [] e.x = "bad"   -> { [r |-> Exc("ExpressionError"), ev |-> <<>>] }
     [] e.x = "err"   -> { [r |-> IF L["error"] = Undef THEN Exc("NameError")
                                  ELSE [t |-> "errfield", f |-> e.f, c |-> L["error"].c, site |-> L["error"].site],
@@ -400,42 +427,73 @@ SCond ==    \* visit_Condition
 \* strings are iterables of their characters; string values are tags, their
 \* lengths are given here (the concretiser's STR_TAGS)
 StrLen(s) == CASE s = "" -> 0 [] s = "h" -> 6 [] s = "h2" -> 12 [] OTHER -> 1
-Iterable(v) == v.t \in {"none", "seq", "dict", "str", "bytes"}
+Iterable(v) == v.t \in {"none", "seq", "dict", "str", "bytes", "range"}
 ItemsOf(v) == CASE v.t = "none" -> <<>>
                 [] v.t = "seq"  -> v.vs
+                [] v.t = "range" -> [n \in 1..v.n |-> [t |-> "int", n |-> n - 1]]
                 [] v.t = "dict" -> [n \in 1..Len(v.kvs) |-> [t |-> "str", s |-> v.kvs[n].k]]
                 [] v.t = "str"  -> [n \in 1..StrLen(v.s) |-> IF StrLen(v.s) = 1 THEN v ELSE [t |-> "char", s |-> v.s, n |-> n]]
                 [] v.t = "bytes" -> [n \in 1..StrLen(v.s) |-> [t |-> "byte", s |-> v.s, n |-> n]]
+
+CRepPrev(i) == <<"repprev", i, 0>>
+\* binding one item to the loop names (tuple unpacking for several names)
+Unpackable(v, k) == k = 1 \/ (v.t = "seq" /\ Len(v.vs) = k)
+UnpackError(v) == IF v.t \in {"seq", "str", "dict", "bytes"} THEN "ValueError" ELSE "TypeError"
+RECURSIVE BindAll(_, _, _, _)
+BindAll(E, ns, v, m) == IF m > Len(ns) THEN E
+                        ELSE BindAll(SetLocal(E, ns[m], IF Len(ns) = 1 THEN v ELSE v.vs[m]), ns, v, m + 1)
+RECURSIVE BindGlob(_, _, _, _)
+BindGlob(G, ns, v, m) == IF m > Len(ns) THEN G
+                         ELSE BindGlob([G EXCEPT ![ns[m]] = IF Len(ns) = 1 THEN v ELSE v.vs[m]], ns, v, m + 1)
+RECURSIVE SetAll(_, _, _, _)
+SetAll(E, ns, vs, m) == IF m > Len(ns) THEN E ELSE SetAll(SetLocal(E, ns[m], vs[m]), ns, vs, m + 1)
 
 SRep ==     \* visit_Repeat, up to the loop head
   /\ Running /\ F.st = "rep"
   /\ LET r == It.rep
          site == Site(F.i, "rep", 0)
+         bk == [m \in 1..Len(r.ns) |-> Lookup(r.ns[m])]
+         c1 == IF r.g THEN cells ELSE SetCell(CBkRep(F.i), [t |-> "bk", vs |-> bk])
      IN \E a \in EvAll(r.e, LookupAll) :
           /\ log' = log \o EvLog(site, a)
           /\ tok' = site
-          /\ cells' = IF r.g THEN cells ELSE SetCell(CBkRep(F.i), Lookup(r.n))
           /\ IF IsExc(a.r) \/ ~Iterable(a.r)
              THEN /\ RaiseAt(site, IF IsExc(a.r) THEN a.r.c ELSE "TypeError")
+                  /\ cells' = c1
                   /\ UNCHANGED <<ctl, envs, rep>>
-             ELSE /\ rep' = [rep EXCEPT ![r.n] = [len |-> Len(ItemsOf(a.r)), pos |-> 0]]
-                  /\ envs' = SetLocal(envs, r.n, VNone)
+             ELSE /\ cells' = [x \in DOMAIN c1 \cup {CRepPrev(F.i)} |->
+                                 IF x = CRepPrev(F.i) THEN rep[r.ns[1]] ELSE c1[x]]
+                  /\ rep' = IF Len(r.ns) = 1
+                            THEN [rep EXCEPT ![r.ns[1]] = [len |-> Len(ItemsOf(a.r)), pos |-> 0]] ELSE rep
+                  /\ envs' = SetAll(envs, r.ns, [m \in 1..Len(r.ns) |-> VNone], 1)
                   /\ ctl' = SetF([F EXCEPT !.st = "iter", !.its = ItemsOf(a.r), !.it = 0])
                   /\ UNCHANGED exc
   /\ UNCHANGED <<pid, glob, out, res>>
 
 SIter ==    \* for __item in __iterator: assign; after the loop _leave_assignment
   /\ Running /\ F.st = "iter"
-  /\ LET r == It.rep IN
+  /\ LET r == It.rep
+         k == Len(r.ns)
+     IN
      IF F.it < Len(F.its)
-     THEN /\ envs' = SetLocal(envs, r.n, F.its[F.it + 1])
-          /\ glob' = IF r.g THEN [glob EXCEPT ![r.n] = F.its[F.it + 1]] ELSE glob
-          /\ rep' = [rep EXCEPT ![r.n] = [len |-> Len(F.its), pos |-> F.it + 1]]
-          /\ ctl' = SetF([F EXCEPT !.it = F.it + 1, !.st = NextStage(It, "rep"), !.j = 1])
-     ELSE /\ envs' = IF r.g THEN envs ELSE SetLocal(envs, r.n, Restored(r.n, cells[CBkRep(F.i)]))
+     THEN LET v == F.its[F.it + 1] IN
+          IF Unpackable(v, k)
+          THEN /\ envs' = BindAll(envs, r.ns, v, 1)
+               /\ glob' = IF r.g THEN BindGlob(glob, r.ns, v, 1) ELSE glob
+               /\ rep' = IF k = 1 THEN [rep EXCEPT ![r.ns[1]] = [len |-> Len(F.its), pos |-> F.it + 1]] ELSE rep
+               /\ ctl' = SetF([F EXCEPT !.it = F.it + 1, !.st = NextStage(It, "rep"), !.j = 1])
+               /\ UNCHANGED exc
+          ELSE /\ RaiseAt(tok, UnpackError(v))
+               /\ UNCHANGED <<envs, glob, rep, ctl>>
+     ELSE /\ envs' = IF r.g THEN envs
+                     ELSE SetAll(envs, r.ns, [m \in 1..k |-> Restored(r.ns[m], cells[CBkRep(F.i)].vs[m])], 1)
+          \* the repeat item of an enclosing loop with the same name is put back
+          \* (the pinned code left the finished inner item: deviation RepeatItemNotRestored)
+          /\ rep' = IF k = 1 /\ cells[CRepPrev(F.i)] # NoRep /\ "RepeatItemNotRestored" \notin Dev
+                    THEN [rep EXCEPT ![r.ns[1]] = cells[CRepPrev(F.i)]] ELSE rep
           /\ ctl' = SetF([F EXCEPT !.st = "undef", !.j = Len(It.def), !.it = 0])
-          /\ UNCHANGED <<glob, rep>>
-  /\ UNCHANGED <<pid, cells, out, log, tok, exc, res>>
+          /\ UNCHANGED <<glob, exc>>
+  /\ UNCHANGED <<pid, cells, out, log, tok, res>>
 
 SSw ==      \* visit_Cache for the switch expression
   /\ Running /\ F.st = "sw"
@@ -612,7 +670,8 @@ SDone ==    \* element finished: back to the parent's children walk
 \* names a frame binds locally
 LocalNames(f) == IF f.i = 0 THEN {} ELSE
   { items[f.i].def[j].n : j \in { j \in 1..Len(items[f.i].def) : ~items[f.i].def[j].g } }
-  \cup (IF items[f.i].rep.m # "no" /\ ~items[f.i].rep.g THEN {items[f.i].rep.n} ELSE {})
+  \cup (IF items[f.i].rep.m # "no" /\ ~items[f.i].rep.g
+        THEN { items[f.i].rep.ns[m] : m \in 1..Len(items[f.i].rep.ns) } ELSE {})
 \* the local layer after leaving frame f abnormally: as if the restores had run
 \* (the generated code has no finally: deviation NoRestoreOnUnwind)
 LayerAfterUnwind(f) ==
@@ -696,6 +755,12 @@ Balanced(o, n, stk) ==
        THEN Len(stk) > 0 /\ stk[Len(stk)] = o[n].i /\ Balanced(o, n + 1, SubSeq(stk, 1, Len(stk) - 1))
   ELSE Balanced(o, n + 1, stk)
 WellBracketed == res = "ok" => Balanced(out, 1, <<>>)
+
+\* C08: between the repetitions of one loop activation there is exactly one
+\* separator per completed iteration but the last, and none after the last
+SeparatorCount ==
+  (Running /\ F.st = "iter" /\ F.it >= Len(F.its) /\ Len(F.its) > 0 /\ exc = NoExc) =>
+     Cardinality({ n \in F.n0 + 1..Len(out) : out[n].a = "sep" /\ out[n].i = F.i }) = Len(F.its) - 1
 
 \* C07: every attribute name occurs at most once in an emitted start tag
 \* (names compared as emitted; a dictionary key equal to a later named entry is
